@@ -643,3 +643,166 @@ def ja_unary_label(w, x, label):
 
 def ja_completeness():
     return []
+
+
+# ------------------------------------------------------------------------------ guess_combinator_by_triplet (C12, reader half)
+class RuleList:
+    """binary_rules(x, y): a list of unknown length of CombinatorResult records; iteration by the find-first loop rule"""
+    def __init__(self, I):
+        self.I = I
+        self.returned_elem = None
+        self.exit_taken = False
+
+    def for_loop(self, I, st, env, module, qual):
+        from vc.pyvc import PathDone, _Return
+        w = I.w
+        if st.orelse:
+            raise CheckerError('for/else in guess_combinator_by_triplet')
+        target = env.lookup('target')
+        if I.branch(I.fresh('loop_exit', z3.BoolSort()), st):
+            # exit: every element was visited by an iteration that completed normally
+            self.exit_taken = True
+            return
+        m = I.load_module('depccg.types')
+        cls = m.env.lookup('CombinatorResult')
+        elem = NTObj(cls)
+        elem.attrs = dict(cat=Z(z3.Const('rule_cat', w.Cat)), op_string=Z(z3.Const('rule_op_string', z3.StringSort())),
+                          op_symbol=Z(z3.Const('rule_op_symbol', z3.StringSort())), head_is_left=Z(z3.Const('rule_head', z3.BoolSort())))
+        self.elem = elem
+        I.assign(st.target, elem, env, module)
+        try:
+            I.exec_block(st.body, env, module, qual)
+        except _Return as r:
+            self.returned_elem = r.v
+            raise
+        # the iteration completed without leaving the loop: allowed only if this element does not derive the target
+        I.oblige('loop-first-match', elem.attrs['cat'].e != target.e, st,
+                 extra='an iteration over a rule whose category equals the target must return that rule (otherwise a derivable node is labelled unknown)')
+        raise PathDone()
+
+
+class OpaqueRules:
+    def __init__(self):
+        self.calls = []
+
+    def call(self, I, args, kwargs, node):
+        self.calls.append((args, kwargs))
+        self.result = RuleList(I)
+        return self.result
+
+
+class GuessCombinator(Contract):
+    rel, qualname = 'depccg/grammar/__init__.py', 'guess_combinator_by_triplet'
+
+    def cases(self, I):
+        w = I.w
+
+        def build(I):
+            t, x, y = z3.Const('target', w.Cat), z3.Const('x', w.Cat), z3.Const('y', w.Cat)
+            self._rules = OpaqueRules()
+            return [self._rules, Z(t), Z(x), Z(y)], {}, [], dict(target=t, x=x, y=y)
+        yield Case('any-rules', build)
+
+    def post(self, I, case, args, result):
+        rl = getattr(self._rules, 'result', None)
+        calls = self._rules.calls
+        if rl is None or len(calls) != 1 or calls[0][1] or len(calls[0][0]) != 2 or calls[0][0][0] is not args[2] or calls[0][0][1] is not args[3]:
+            return z3.BoolVal(False)        # the grammar must be applied exactly once, to (x, y)
+        if rl.returned_elem is not None:
+            # returned from inside the loop: the very rule being visited, and it derives the target
+            return z3.And(z3.BoolVal(result is rl.elem), rl.elem.attrs['cat'].e == args[1].e)
+        if not rl.exit_taken:
+            return z3.BoolVal(False)
+        ok, rcat, label, head = decode_result(I, result)
+        if not ok:
+            return z3.BoolVal(False)
+        return z3.And(rcat == args[1].e, z3.BoolVal(label == ('unk', '<unk>') and head is True))
+
+
+def call_site_obligations():
+    """data flow at the call sites of guess_combinator_by_triplet (decided on the ast): the grammar is queried with (cat, left.cat, right.cat), and the
+    node is built with Tree.make_binary(cat, left, right, rule.op_string, rule.op_symbol, <head>) where <head> is rule.head_is_left unless the file
+    format carries its own head flag (AUTO)."""
+    from vc.sorts import parse_source
+    sites = [('depccg/tools/reader.py', '_AutoLineReader.parse_tree', 'file'), ('depccg/tools/reader.py', 'read_xml', 'rule'),
+             ('depccg/tools/reader.py', 'read_jigg_xml', 'rule'), ('depccg/tools/reader.py', '_parse_ptb', 'rule'), ('depccg/tree.py', 'Tree.of_nltk_tree', 'rule')]
+    out = []
+    sig = make_binary_signature()
+    for rel, qual, head_src in sites:
+        tree = parse_source(rel)
+        fn = _find_def(tree, qual.split('.'))
+        if fn is None:
+            out.append((rel, qual, 0, False, 'function not found'))
+            continue
+        found = False
+        for scope in [n for n in ast.walk(fn) if isinstance(n, ast.FunctionDef)]:
+            var = None
+            for n in ast.walk(scope):
+                if isinstance(n, ast.Assign) and isinstance(n.value, ast.Call) and _callee(n.value) == 'guess_combinator_by_triplet' and isinstance(n.targets[0], ast.Name):
+                    var, call = n.targets[0].id, n.value
+                    found = True
+                    args = call.args
+                    ok_q = (len(args) == 4 and not call.keywords and isinstance(args[1], ast.Name) and
+                            all(isinstance(a, ast.Attribute) and a.attr == 'cat' and isinstance(a.value, ast.Name) for a in args[2:]))
+                    problems = [] if ok_q else ['grammar not queried with (rules, cat, left.cat, right.cat)']
+                    # the make_binary call that uses it
+                    mb = [c for c in ast.walk(scope) if isinstance(c, ast.Call) and _callee(c) == 'make_binary']
+                    if len(mb) != 1:
+                        problems.append(f'{len(mb)} make_binary calls in scope')
+                    else:
+                        c = mb[0]
+                        a = c.args
+                        if c.keywords or not (len(sig['required']) <= len(a) <= len(sig['all'])):
+                            problems.append(f'make_binary called with {len(a)} positional arguments (signature: {sig["all"]})')
+                        else:
+                            names = dict(zip(sig['all'], a))
+                            def is_attr(e, attr):
+                                return isinstance(e, ast.Attribute) and e.attr == attr and isinstance(e.value, ast.Name) and e.value.id == var
+                            if not (ok_q and isinstance(names.get('cat'), ast.Name) and names['cat'].id == args[1].id):
+                                problems.append('node category is not the queried category')
+                            if ok_q and not (isinstance(names.get('left'), ast.Name) and names['left'].id == args[2].value.id and
+                                             isinstance(names.get('right'), ast.Name) and names['right'].id == args[3].value.id):
+                                problems.append('children are not the queried (left, right)')
+                            if not is_attr(names.get('op_string'), 'op_string'):
+                                problems.append('op_string is not rule.op_string')
+                            if not is_attr(names.get('op_symbol'), 'op_symbol'):
+                                problems.append('op_symbol is not rule.op_symbol')
+                            h = names.get('head_is_left')
+                            if head_src == 'rule' and not is_attr(h, 'head_is_left'):
+                                problems.append('head direction is not rule.head_is_left although the format has no head field')
+                            if head_src == 'file' and not isinstance(h, ast.Name):
+                                problems.append('head direction is not the flag read from the file')
+                    out.append((rel, qual, n.lineno, not problems, '; '.join(problems)))
+        if not found:
+            out.append((rel, qual, 0, False, 'no call of guess_combinator_by_triplet found'))
+    return out
+
+
+def _callee(c):
+    f = c.func
+    return f.id if isinstance(f, ast.Name) else (f.attr if isinstance(f, ast.Attribute) else None)
+
+
+def _find_def(tree, parts):
+    cur = tree
+    for p in parts:
+        nxt = None
+        for n in ast.walk(cur):
+            if isinstance(n, (ast.FunctionDef, ast.ClassDef)) and n.name == p and n is not cur:
+                nxt = n
+                break
+        if nxt is None:
+            return None
+        cur = nxt
+    return cur
+
+
+def make_binary_signature():
+    from vc.sorts import parse_source
+    tree = parse_source('depccg/tree.py')
+    fn = _find_def(tree, ['Tree', 'make_binary'])
+    if fn is None:
+        raise CheckerError('Tree.make_binary not found')
+    names = [a.arg for a in fn.args.args]
+    nd = len(fn.args.defaults)
+    return dict(all=names, required=names[:len(names) - nd])
